@@ -52,10 +52,14 @@ CHECKS.update({
     text="Coq theorem over a transition system of a session thread and the flusher thread on an RWMutex: for any "
          "statement programs accepted by a verified bracket checker and any schedule, no page/header write happens "
          "inside a statement and cache/page state is never touched by both sides at once; the programs are regenerated "
-         "from the Go source on every run (tools/gen_protocol) and re-checked. Dynamic part: -race build against the "
+         "from the Go source on every run (tools/gen_protocol) and re-checked; the translator's classification of callees by "
+         "name is itself re-checked against a static census of every file-handle use and the call graph of package "
+         "storage (Gen/IoSites.v, go/types; C13_classification_sound: statement bodies reach no write of the data file "
+         "or the log). Dynamic part: -race build against the "
          "real 100 ms ticker with statements parked at six points while the data file is watched.",
     note="PARTIAL: the theorem is about the lock protocol extracted from the source; Go memory model, runtime and the "
-         "bodies of classified calls are not modelled (covered by the race detector run). Races between USE's "
+         "bodies of classified calls are not modelled beyond the static reachability of write sites (covered by the race "
+         "detector run and by comparing the data file around every statement body, also with tiny page caches). Races between USE's "
          "fileStore.open and the ticker's first flush are outside the property's statement kinds and filtered by call "
          "site (documented in tools/props/c13.py). No axioms.",
     technique="Coq proof (invariant over reachable states of the lock protocol regenerated from source) + race-detector run",
@@ -325,7 +329,7 @@ def main():
         "notes": "See DESIGN.md (sections 1-10: plan; 11: what was built, defects repaired, seeded changes, final status per "
                  "property, trusted base). 35 'fix:' commits in /repo (each a genuine defect shown against the real code; the unedited "
                  "suite passes), listed in known_findings.json 'fixed'; two findings recorded and not repaired (C04 structural torn "
-                 "flush, C07 running rounded AVG pinned by the existing tests). 60 seeded changes under seeded/ (five rounds, written "
+                 "flush, C07 running rounded AVG pinned by the existing tests). 70 seeded changes under seeded/ (six rounds, written "
                  "by sub-agents that saw only the property text), each confirmed in a scratch worktree and detected by the quick check "
                  "of its property; tools/reseed.py re-runs round one against the current HEAD. Thorough tier: larger scopes, coqchk on "
                  "the property's files, Go statement coverage of the correspondence runs.",
